@@ -37,7 +37,7 @@ theorem compare_shift (x y : Bytes) : compare (encShift x) (encShift y) = compar
 
 /-- `EncOrd` is satisfiable -/
 theorem encOrd_shift : EncOrd encShift := by
-  intro x y
+  intro x y _ _
   rw [C04.cmpLabel_ci, lowerLabel_shift, lowerLabel_shift, compare_shift]
 
 /-- zone `z.` with `a.z. {A}`; hashes as in `H0` -/
@@ -93,6 +93,20 @@ theorem noCollisions_ex : NoCollisions H0 Zex [[97], [122]] := by
   constructor <;> intro n hn heq <;> rcases Zex_has hn with rfl | rfl <;>
     rcases hcases with rfl | rfl | rfl <;> first | rfl | (revert heq; decide)
 
+theorem hashWF_ex : HashWF H0 [recA] := by
+  refine ⟨?_, ?_⟩
+  · intro n
+    simp only [H0]
+    split
+    · decide
+    · split
+      · decide
+      · split <;> decide
+  · intro r hr
+    simp only [List.mem_singleton] at hr
+    subst hr
+    decide
+
 /-- the verdict: NODATA for `a.z. TXT` is `Secure` for the repaired and for the current code -/
 theorem secure_ex :
     verifyNsec3 allFixed H0 encShift (mk [[97], [122]]) 16 (some (mk [[122]])) rcNoError none
@@ -102,7 +116,7 @@ theorem secure_ex :
 
 /-- … and the soundness theorem applies: `a.z.` has no TXT, no CNAME and is not a delegation. -/
 example : ClaimNoData Zex [[97], [122]] 16 ∨ ClaimWildcardNoData Zex [[97], [122]] 16 :=
-  (verify_nodata_sound encOrd_shift secure_ex.1 Zex_wf consistent_ex noCollisions_ex
+  (verify_nodata_sound encOrd_shift hashWF_ex secure_ex.1 Zex_wf consistent_ex noCollisions_ex
     (.inl rfl) (.inl rfl) (.inl rfl) (.inl rfl)).2 (by decide)
 
 end HickoryVerif.C09
